@@ -5,7 +5,6 @@ package main
 
 import (
 	"fmt"
-	"go/ast"
 	"go/token"
 	"go/types"
 	"strings"
@@ -259,22 +258,25 @@ func (e *Exec) applyContract(ct *Contract, fn *ssa.Function, args []Val, reach T
 // havocLoc havocs the location denoted by an assigns entry
 func (e *Exec) havocLoc(src string, env *SpecEnv, cells map[string]Term, fn *ssa.Function) {
 	c := e.c
-	x, err := parseSpecExpr(src)
-	if err != nil {
-		e.fail("assigns entry %q: %v", src, err)
-	}
 	sub := *env
 	sub.cells = cells
-	var a *Addr
-	if se, ok := x.(*ast.StarExpr); ok {
-		pv := sub.eval(se.X)
-		a = e.addrOfPtr(pv)
-	} else {
-		av := sub.addrExpr(x)
-		a = av.Addr
+	tgs := e.assignTargets(src, &sub)
+	if len(tgs) > 0 && tgs[0].addr != nil {
+		// a location with an address: havoc exactly that component
+		c.storeAt(cells, tgs[0].addr, c.freshVal(tgs[0].typ, "havoc"))
+		return
 	}
-	t := typeAt(a.Typ, a.Path)
-	c.storeAt(cells, a, c.freshVal(t, "havoc"))
+	for _, tg := range tgs {
+		// slice elements: the backing array object of this slice becomes arbitrary
+		cur, ok := cells[tg.key]
+		if !ok {
+			cur, ok = c.initial[tg.key]
+			if !ok {
+				continue // never read or written in this unit: nothing depends on it
+			}
+		}
+		cells[tg.key] = c.store(cur, tg.ref, c.fresh(cur.Sort.Elem, "havoc"))
+	}
 }
 
 // libraryCall: functions outside the repository (or without body): result arbitrary, no
@@ -298,6 +300,22 @@ func (e *Exec) libraryCall(fn *ssa.Function, args []Val, reach Term, st *State, 
 		c.assume(c.implies(reach, c.app(sortBool, "bvuge", res[0].L[2], bvLitI(64, 1))), "strings.Split returns >= 1 part")
 		c.assume(c.implies(reach, c.app(sortBool, "bvule", res[0].L[2], res[0].L[3])), "")
 		c.assume(c.implies(reach, c.app(sortBool, "bvult", res[0].L[3], bvLitI(64, 1<<40))), "")
+	case "math.Floor":
+		return []Val{scalar(res[0].Typ, c.def(sortFloat, fmt.Sprintf("(fp.roundToIntegral RTN %s)", args[0].T().S)))}, reach
+	case "math.Log2":
+		// trusted library contract: for 2^k <= x < 2^(k+1), k <= Log2(x) < k+1 (Go computes the
+		// integer part exactly with Frexp); nothing else is assumed about the result
+		r := res[0].T()
+		x := args[0].T()
+		for k := 0; k < 63; k++ {
+			lo := floatLit(float64(uint64(1) << uint(k)))
+			hi := floatLit(float64(uint64(1) << uint(k+1)))
+			in := c.and(c.app(sortBool, "fp.leq", lo, x), c.app(sortBool, "fp.lt", x, hi))
+			out := c.and(c.app(sortBool, "fp.leq", floatLit(float64(k)), r), c.app(sortBool, "fp.lt", r, floatLit(float64(k+1))))
+			c.assume(c.implies(reach, c.implies(in, out)), "math.Log2 contract")
+		}
+		e.trusted["math.Log2(x) lies in [k, k+1) whenever 2^k <= x < 2^(k+1) (assumed library contract)"] = true
+		return res, reach
 	case "math/bits.OnesCount64":
 		return []Val{scalar(res[0].Typ, e.popcount(args[0].T()))}, reach
 	case "math/bits.TrailingZeros64":
